@@ -29,6 +29,17 @@ POS_NAMES = {'Some', 'Ok', 'Continue'}
 NEG_NAMES = {'None', 'Err', 'Break'}
 
 
+MAX_RSS_KB = 4500000      # a check stops exploring (fail closed) well before the machine runs out of memory
+
+
+def rss_kb():
+    try:
+        import resource
+        return resource.getrusage(resource.RUSAGE_SELF).ru_maxrss
+    except Exception:
+        return 0
+
+
 class Limit(Exception):
     pass
 
@@ -192,7 +203,7 @@ class Program:
 
 
 class PX:
-    def __init__(self, program, inline=True, max_depth=12, max_states=40000, opaque=(), wrap_returns=(),
+    def __init__(self, program, inline=True, max_depth=12, max_states=150000, opaque=(), wrap_returns=(),
                  inline_loops=False, trace=False):
         self.p = program
         self.inline = inline
@@ -862,6 +873,8 @@ class PX:
             self.nstates += 1
             if self.nstates > self.max_states:
                 raise Limit('state budget exceeded in %s' % self.top_fn)
+            if self.nstates % 2000 == 0 and rss_kb() > MAX_RSS_KB:
+                raise Limit('memory budget exceeded in %s (%d states)' % (self.top_fn, self.nstates))
             if top and bi in loops:
                 # loop cut: abstract the loop-modified locals, finish the segment, continue from the header node once
                 pre_facts, pre_shapes = dict(st.facts), dict(st.shapes)
@@ -1207,6 +1220,16 @@ class PX:
     def resolve(self, name, t, args):
         if name in self.p.bodies:
             return name
+        # str::parse::<T>() is <T as FromStr>::from_str (std: `FromStr::from_str(self)`)
+        if name.endswith('str::<impl str>::parse'):
+            ga = t.get('ga', '').strip('[]')
+            parts = [x.strip() for x in self.split_top(ga)]
+            if parts:
+                for imp in self.p.facts.impls:
+                    if imp['trait_def'].endswith('str::FromStr') and self.ty_eq(imp['self_ty'], parts[0]):
+                        for it in imp['items']:
+                            if it.endswith('::from_str') and it in self.p.bodies:
+                                return it
         # <T as Into<U>>::into  ->  <U as From<T>>::from in the repository
         if name.endswith('<T as std::convert::Into<U>>::into') or name.endswith('convert::Into::into'):
             ga = t['ga'].strip('[]')
